@@ -230,6 +230,7 @@ type c07Rec struct {
 	data    string // Argon2 hash
 	pw      int
 	expM    int64 // signed exp claim, model time
+	nbfM    int64 // not-before, model time (forged records; genuine ones: expM - 96 h)
 }
 
 type c07Hist struct {
@@ -789,7 +790,7 @@ func (h *c07Hist) tamper() {
 		}
 		expM := h.now + []int64{-100, 96 * 3600, 10000000}[rng.Intn(3)]
 		id := len(h.recs)
-		h.recs = append(h.recs, c07Rec{genuine: false, kind: kind, sub: c07Users[slot], data: hash, pw: pw, expM: expM})
+		h.recs = append(h.recs, c07Rec{genuine: false, kind: kind, sub: c07Users[slot], data: hash, pw: pw, expM: expM, nbfM: h.now - 5})
 		put(h.mint(id))
 		h.record(fmt.Sprintf("(Tamper %s %d%%N (RForged %d%%N %d%%N (%d)%%Z (%d)%%Z) (%d)%%Z)", which, slot, slot, pw, h.now-5, expM, col), "None")
 		h.e.res.bump("op:tamper-forged-" + kind)
@@ -850,6 +851,19 @@ func (h *c07Hist) randomOp(allowTamper bool) {
 	}
 }
 
+// the records as numbered here (the numbers the snapshots carry), for the observation predicates
+func (h *c07Hist) emitRecs() string {
+	var l []string
+	for _, r := range h.recs {
+		nbf := r.nbfM
+		if r.genuine {
+			nbf = r.expM - 96*3600
+		}
+		l = append(l, fmt.Sprintf("mk_jws %s %d%%N %d%%N (%d)%%Z (%d)%%Z", coqBool(r.genuine), c15UserNo(r.sub), r.pw, nbf, r.expM))
+	}
+	return "[" + strings.Join(l, "; ") + "]"
+}
+
 func (h *c07Hist) emit(n, extraPatterns int) string {
 	return fmt.Sprintf("((((%d%%nat, %d%%nat), [%s]),\n  [%s]),\n  [%s])", n, extraPatterns, strings.Join(h.ops, "; "), strings.Join(h.outs, "; "), strings.Join(h.snaps, ";\n   "))
 }
@@ -887,7 +901,7 @@ func TestVerif_C07(t *testing.T) {
 	if verifThorough() {
 		nHist, maxOps = 1500, 14
 	}
-	var cases, idx []string
+	var cases, idx, recTables []string
 	voided := 0
 	run := func(i int, body func(h *c07Hist)) {
 		e.wipe()
@@ -923,6 +937,7 @@ func TestVerif_C07(t *testing.T) {
 			return
 		}
 		cases = append(cases, h.emit(len(dirSrv.status), extraPatterns))
+		recTables = append(recTables, h.emitRecs())
 		idx = append(idx, strings.Join(h.human, " "))
 		if i < 3 {
 			res.sample(map[string]interface{}{"history": h.human})
@@ -1262,7 +1277,8 @@ func TestVerif_C07(t *testing.T) {
 	sb.WriteString("Definition c07_mismatches := Eval vm_compute in mismatches (fun c => negb (pw_case_ok c)) cases.\nPrint c07_mismatches.\n")
 	// the property's predicates on the OBSERVATION of the mismatching cases (a failing input when they hold)
 	sb.WriteString("Definition c07_renewed_violating := Eval vm_compute in mismatches (fun c => negb (pw_case_ok c) && outage_login_renewed c) cases.\nPrint c07_renewed_violating.\n")
-	sb.WriteString("Definition c07_stale_violating := Eval vm_compute in mismatches (fun c => negb (pw_case_ok c) && stale_cache_decided c) cases.\nPrint c07_stale_violating.\n")
+	sb.WriteString("Definition rec_tables : list (list jws) := [\n" + strings.Join(recTables, ";\n") + "\n].\n")
+	sb.WriteString("Definition c07_stale_violating := Eval vm_compute in mismatches (fun ct => negb (pw_case_ok (fst ct)) && stale_cache_decided (snd ct) (fst ct)) (combine cases rec_tables).\nPrint c07_stale_violating.\n")
 	// the backend table: (lower-case name, index of its password in the list above)
 	sb.WriteString("Definition btable : list (bs * N) := [(" + coqPacked([]byte("alice")) + ", 0%N); (" + coqPacked([]byte("bob")) + ", 1%N); (" + coqPacked([]byte("admin")) + ", 2%N)].\n")
 	sb.WriteString("Definition bfile (u : bs) (p : bs) : bool := existsb (fun e => bs_eqb (fst e) u && bs_eqb [snd e] p) btable.\n")
